@@ -16,7 +16,7 @@ func init() {
 		Assume: append([]string{
 			"testing/synctest fake clock and quiescence detection; Go race detector; the go/ast rewriter that inserts scheduling points into a scratch copy (cross-checked by running the unmodified tree alongside)",
 			"restart of a server after Shutdown is not exercised (unspecified by the property)",
-			"TLS listener is exercised as a TCP listener only",
+			"the TLS-style listener is crypto/tls (real handshakes, fixed Ed25519 certificate) over the simulated stream",
 		}, stubCommon...),
 	}
 }
